@@ -15,12 +15,12 @@ import Nstd.Codec.Spec
     hex <bytes>            fromHex -> `hex <bytes of the text>`
     b64 <bytes>            fromBase64 -> `b64 <bytes>`
     b64pre <bytes> <k>     all k-symbol suffixes (k <= 3) over the 68-symbol set -> `b64pre <count> <digest>`
-    fi32|fu32|fi64|fu64 <hex two's complement>   from*/to* round trip -> `<op> <text> <member to*, hex> <static to*, hex>`
+    fi32|fu32|fi64|fu64 <hex two's complement>   from*/to* round trip -> `<op> <text> <fromPrintf text> <member to*, hex> <static to*, hex>`
     pi32|pu32|pi64|pu64 <bytes of the text>      to* of arbitrary text -> `<op> <member, hex> <static, hex>`
     lcs <fn> <bytes>       the libc DEFINITION of atoi|atol|atoll|strtol|strtoul|strtoll|strtoull on the C string -> `lcs <hex>`
     lcf <d|u|lld|llu> <hex64> <cap>   the libc DEFINITION of snprintf(buf, cap, "%<conv>", v) -> `lcf <stored bytes> <return value>`
     cls <byte>             isSpace + the eight ctype wrappers + toLowerCase/toUpperCase -> `cls <9 flags> <lower> <upper>`
-    fd <hex64>             fromDouble of the double with that bit pattern, toDouble of the text -> `fd <text> <bits> <first try?>`
+    fd <hex64>             fromDouble of the double with that bit pattern, toDouble of the text -> `fd <text> <fromPrintf("%f"): same|text> <bits> <first try?>`
     pd <bytes>             toDouble (member, static) of arbitrary text -> `pd <bits> <bits>` (strtodRef below: executable
                            correctly rounding strtod, tested against libc, no theorem)
   A modelled out-of-range access prints `OOB`.
@@ -31,6 +31,7 @@ import Nstd.Codec.Spec
     spec-b64d <bytes>          -> `spec-b64d <Spec.b64Decode>`
     spec-hex <bytes>           -> `spec-hex <Spec.upperHex>`
     spec-wf <bytes>            -> `spec-wf <Spec.wellFormed>`
+    spec-rfc <bytes>           -> `spec-rfc <Spec.rfc3629> <Spec.oneSeq> <Spec.seqValue> <Spec.shortest>`
     spec-dec <decimal>         -> `spec-dec <decDigits as text> <Spec.decimalValue of it>`
 -/
 open Nstd.Common Nstd.Generated.Codec
@@ -269,22 +270,22 @@ def stepLine (st : Unit) (ws : List String) : Unit × String :=
   | ["fi32", x] =>
     match hexVal? x with
     | some v => if x.length == 8 then
-        let t := fromInt (toSigned 32 v); s!"fi32 {asciiStr t} {hexN 8 (ofSigned 32 (toInt t))} {hexN 8 (ofSigned 32 (toIntS t))}" else "bad-op"
+        let t := fromInt (toSigned 32 v); s!"fi32 {asciiStr t} {asciiStr (fromPrintf (fmtSigned (toSigned 32 v)))} {hexN 8 (ofSigned 32 (toInt t))} {hexN 8 (ofSigned 32 (toIntS t))}" else "bad-op"
     | none => "bad-op"
   | ["fu32", x] =>
     match hexVal? x with
     | some v => if x.length == 8 then
-        let t := fromUInt v; s!"fu32 {asciiStr t} {hexN 8 (toUInt t)} {hexN 8 (toUIntS t)}" else "bad-op"
+        let t := fromUInt v; s!"fu32 {asciiStr t} {asciiStr (fromPrintf (decDigits v))} {hexN 8 (toUInt t)} {hexN 8 (toUIntS t)}" else "bad-op"
     | none => "bad-op"
   | ["fi64", x] =>
     match hexVal? x with
     | some v => if x.length == 16 then
-        let t := fromInt64 (toSigned 64 v); s!"fi64 {asciiStr t} {hexN 16 (ofSigned 64 (toInt64 t))} {hexN 16 (ofSigned 64 (toInt64S t))}" else "bad-op"
+        let t := fromInt64 (toSigned 64 v); s!"fi64 {asciiStr t} {asciiStr (fromPrintf (fmtSigned (toSigned 64 v)))} {hexN 16 (ofSigned 64 (toInt64 t))} {hexN 16 (ofSigned 64 (toInt64S t))}" else "bad-op"
     | none => "bad-op"
   | ["fu64", x] =>
     match hexVal? x with
     | some v => if x.length == 16 then
-        let t := fromUInt64 v; s!"fu64 {asciiStr t} {hexN 16 (toUInt64 t)} {hexN 16 (toUInt64S t)}" else "bad-op"
+        let t := fromUInt64 v; s!"fu64 {asciiStr t} {asciiStr (fromPrintf (decDigits v))} {hexN 16 (toUInt64 t)} {hexN 16 (toUInt64S t)}" else "bad-op"
     | none => "bad-op"
   | ["pi32", d] =>
     match Nstd.Common.fromHex d with
@@ -344,7 +345,7 @@ def stepLine (st : Unit) (ws : List String) : Unit × String :=
       if x.length == 16 then
         let d := dblOfBits v
         let t := fromDouble d
-        s!"fd {asciiStr t} {showDbl (toDouble (fun s => (strtodRef s).getD (.nan false)) t |> some)} {b2s (printfFirstTry printfCap (fmtF d))}"
+        s!"fd {asciiStr t} {if fromPrintf (fmtF d) == t then "same" else asciiStr (fromPrintf (fmtF d))} {showDbl (toDouble (fun s => (strtodRef s).getD (.nan false)) t |> some)} {b2s (printfFirstTry printfCap (fmtF d))}"
       else "bad-op"
     | none => "bad-op"
   | ["pd", d] =>
@@ -374,6 +375,10 @@ def stepLine (st : Unit) (ws : List String) : Unit × String :=
   | ["spec-wf", d] =>
     match Nstd.Common.fromHex d with
     | some bs => s!"spec-wf {b2s (Spec.wellFormed bs)}"
+    | none => "bad-op"
+  | ["spec-rfc", d] =>
+    match Nstd.Common.fromHex d with
+    | some bs => s!"spec-rfc {b2s (Spec.rfc3629 bs)} {b2s (Spec.oneSeq bs)} {Spec.seqValue bs} {b2s (Spec.shortest bs)}"
     | none => "bad-op"
   | ["spec-dec", n] =>
     match n.toNat? with
